@@ -54,8 +54,8 @@ def _strip_cast(body):
     return stmts, ret.value
 
 
-def _normalise_stat(prog, f):
-    stmts, retv = _strip_cast(body_nodoc(f.node))
+def _normalise_stat(prog, f, body=None):
+    stmts, retv = _strip_cast(body if body is not None else body_nodoc(f.node))
     if stmts is None:
         raise VNUnknown("no return")
     vn = VN(prog, f)
@@ -215,19 +215,37 @@ def check_gtcount(prog, rep, K):
         rep.ok("R3-classes", construct, "rows i = 0..ploidy, row i = (dosage == i).sum(taxa); all ploidy+1 rows written")
 
 
+FLAG_FORMS = [
+    (("freq", "fixed"), ["(self.afreq() == 0.0) | (self.afreq() == 1.0)", "numpy.logical_or(self.afreq() == 0.0, self.afreq() == 1.0)"]),
+    (("freq", "poly"), ["(self.afreq() > 0.0) & (self.afreq() < 1.0)", "numpy.logical_and(self.afreq() > 0.0, self.afreq() < 1.0)"]),
+    (("all", "poly"), ["numpy.logical_not(numpy.all(self.mat == 0, axis=AX) | numpy.all(self.mat == 1, axis=AX))", "~(numpy.all(self.mat == 0, axis=AX) | numpy.all(self.mat == 1, axis=AX))"]),
+    (("all", "fixed"), ["numpy.all(self.mat == 0, axis=AX) | numpy.all(self.mat == 1, axis=AX)"]),
+]
+
+
 def _flag_form(prog, f):
-    """classify a fixation/polymorphism flag body: ('freq','fixed'|'poly') or ('all','fixed'|'poly') or None"""
-    txt = [dump(s) for s in body_nodoc(f.node)]
-    j = " ; ".join(txt)
-    if "(afreq == 0.0) | (afreq == 1.0)" in j or "(afreq == 0) | (afreq == 1)" in j:
-        return ("freq", "fixed")
-    if "(afreq > 0.0) & (afreq < 1.0)" in j or "(afreq > 0) & (afreq < 1)" in j:
-        return ("freq", "poly")
-    if "numpy.all(self.mat == 0" in j and "numpy.all(self.mat == 1" in j:
-        if "numpy.logical_not(min_mask | max_mask)" in j or "~(min_mask | max_mask)" in j:
-            return ("all", "poly")
-        if "out = min_mask | max_mask" in j:
-            return ("all", "fixed")
+    """classify a fixation/polymorphism flag body by its value-numbered result (locals inlined, so their names do not matter):
+    ('freq','fixed'|'poly') or ('all','fixed'|'poly') or None"""
+    import copy
+    body = [copy.deepcopy(x) for x in body_nodoc(f.node)]
+    for x in body:
+        for c in ast.walk(x):
+            # frequencies requested with arguments are still the frequency form (the argument itself is judged by the dtype rule)
+            if isinstance(c, ast.Call) and isinstance(c.func, ast.Attribute) and c.func.attr == "afreq" and dump(c.func.value) == "self":
+                c.args, c.keywords = [], []
+    try:
+        got, _ = _normalise_stat(prog, f, body)
+    except VNUnknown:
+        return None
+    for form, texts in FLAG_FORMS:
+        for t in texts:
+            for ax in ("(self.phase_axis, self.taxa_axis)", "self.taxa_axis", "0", "(0, 1)"):
+                try:
+                    ref = VN(prog, f).expr(ast.parse(t.replace("AX", ax), mode="eval").body)
+                except VNUnknown:
+                    continue
+                if got == ref:
+                    return form
     return None
 
 
@@ -245,7 +263,8 @@ def check_complement(prog, rep, K):
         if form is None or form[0] != "freq":
             continue
         for st in walk_no_nested(fl.node):
-            if isinstance(st, ast.Assign) and len(st.targets) == 1 and dump(st.targets[0]) == "afreq" and isinstance(st.value, ast.Call):
+            if isinstance(st, ast.Assign) and len(st.targets) == 1 and isinstance(st.targets[0], ast.Name) and isinstance(st.value, ast.Call) \
+                    and isinstance(st.value.func, ast.Attribute) and st.value.func.attr == "afreq":
                 c = st.value
                 if dump(c.func) == "self.afreq" and (c.args or c.keywords):
                     rep.violate("R4-complement", fl.qualname, "the flag compares %s: the frequency is cast to the requested OUTPUT dtype before the == 0 / == 1 tests, so with "
